@@ -80,6 +80,8 @@ class C:
 
     def forall(self, n, body, name="k"):
         """forall k in [0, n): body(k)"""
+        if isinstance(n, int) and n <= 8:
+            return sand(*[body(i) for i in range(n)])
         k = fresh("int", name + "!q")
         ctx = cur()
         ctx.quiet += 1
@@ -93,6 +95,8 @@ class C:
 
     def forall2(self, n, body):
         """forall a < b in [0, n): body(a, b)"""
+        if isinstance(n, int) and n <= 6:
+            return sand(*[body(i, j) for i in range(n) for j in range(i + 1, n)])
         a, b = fresh("int", "a!q"), fresh("int", "b!q")
         ctx = cur()
         ctx.quiet += 1
@@ -103,6 +107,8 @@ class C:
         return SB(z3.ForAll([a.t, b.t], z3.Implies(z3.And(0 <= a.t, a.t < b.t, b.t < _term(n)), _term(r))))
 
     def exists(self, n, body, name="k"):
+        if isinstance(n, int) and n <= 8:
+            return sor(*[body(i) for i in range(n)])
         k = fresh("int", name + "!e")
         ctx = cur()
         ctx.quiet += 1
